@@ -200,9 +200,12 @@ func genC19(o *Out, rng *rand.Rand, tier string) {
 		emitDec(b, "far-pointer")
 	}
 	// lists in which many names end in a pointer (a search list of one company's subdomains): 1 ... 300 pointers in one value
-	for _, k := range []int{1, 2, 5, 9, 10, 11, 12, 16, 17, 33, 64, 100, 128, 300} {
+	for _, k := range []int{1, 2, 5, 9, 10, 11, 12, 16, 17, 18, 33, 35, 64, 65, 100, 128, 129, 300, 301} {
 		for variant := 0; variant < 3; variant++ {
 			base := []byte{7, 'e', 'x', 'a', 'm', 'p', 'l', 'e', 3, 'c', 'o', 'm', 0}
+			if k%2 == 1 { // a target of many short labels
+				base = []byte{1, 'a', 1, 'b', 1, 'c', 1, 'd', 1, 'e', 1, 'f', 2, 'i', 'o', 0}
+			}
 			b := append([]byte(nil), base...)
 			prev := 0
 			for j := 0; j < k && len(b) < 16000; j++ {
